@@ -29,6 +29,16 @@ func TestMain(m *testing.M) {
 }
 
 func genChain(t *rapid.T, label string, maxLen int) *gpbft.ECChain {
+	if maxLen >= 100 && rapid.IntRange(0, 7).Draw(t, label+".boundary") == 0 {
+		// boundary size: (almost) the maximum number of tipsets, every key at its 760-byte maximum
+		n := rapid.IntRange(maxLen-28, maxLen).Draw(t, label+".blen")
+		ts := make([]*gpbft.TipSet, n)
+		for i := range ts {
+			ts[i] = &gpbft.TipSet{Epoch: int64(i * 3), Key: vgen.DetBytes(gpbft.TipsetKeyMaxLen, "bk", label, i), PowerTable: vgen.DetCid("bpt", i)}
+			copy(ts[i].Commitments[:], vgen.DetBytes(32, "bc", i))
+		}
+		return vgen.Chain(ts...)
+	}
 	n := rapid.OneOf(rapid.IntRange(0, 6), rapid.IntRange(0, maxLen), rapid.Just(maxLen)).Draw(t, label+".len")
 	if n == 0 {
 		return &gpbft.ECChain{}
